@@ -44,3 +44,20 @@ check_C19() {
   build_inpkg fixture_verif_test.go c19_resolution_verif_test.go
   inpkg_test inpkg TestVerifC19
 }
+
+# wire_part <name> <scenario> [vfwire flags...] : the real -race binary driven over loopback
+wire_part() {
+  local name=$1 scen=$2; shift 2
+  mkdir -p "$S/w-$name"
+  run_part "$name" in_ns "$ROOT/bin/vfwire" -bin "$S/sipproxy" -dir "$S/w-$name" -prop "$PROP" "$@" "$scen"
+}
+
+check_C03() {
+  build_proxy
+  wire_part wire route
+}
+
+check_C13() {
+  build_proxy
+  wire_part wire route
+}
